@@ -15,7 +15,7 @@ CHARSETS_BAD = ['nosuch', 'utf-9', 'undefined', 'idna', 'punycode', 'hex', 'base
                 'uu', 'quopri', 'mbcs', 'oem', 'x' * 300, 'utf-8;', 'u\xf1', '"utf-8', 'utf 8', '*', '=', "'"]
 NUMBERS_BAD = ['', 'abc', '1e3', '-1', '+5', '0x10', '1.5', '1 0', '\xb2', '\xb9\xb3', '1_0', ' 7 ', '9' * 25,
                '9' * 4400, 'NaN', 'inf', '١', '1,2', '1;2', '0' * 5000]
-TOKENS = ['a', 'b', 'key', 'x-1', 'n\xe4me', 'k%20x', '', ' ', 'a b']
+TOKENS = ['a', 'b', 'key', 'x-1', 'n\xe4me', 'k%20x', '', ' ', 'a b', 'to', 'to', '\xd0\xba\xd0\xbb', '%E2%82%AC']
 HTTP_DATES = ['Sun, 06 Nov 1994 08:49:37 GMT', 'Sunday, 06-Nov-94 08:49:37 GMT', 'Sun Nov  6 08:49:37 1994',
               'Thu, 01 Jan 2099 00:00:00 GMT', '0', 'yesterday', 'Sun, 06 Nov 1994 08:49:37', '-1',
               'Sun, 99 Nov 1994 08:49:37 GMT', 'Sun, 06 Nov 99999999999 08:49:37 GMT']
@@ -30,7 +30,7 @@ def pick(rng, xs):
 # --------------------------------------------------------------------------------------------------
 SEPS = ['=', ';', ',', '-', ':', '&', '/', ' ', '"', "'", '?', '*', '.', '%']
 MUTATIONS = ['truncate', 'duplicate', 'wrongsep', 'dropsep', 'badnumber', 'quote', 'dropquote', 'oversize',
-             'badcharset', 'insert', 'ctl', 'encword', 'case', 'empty', 'space']
+             'badcharset', 'insert', 'ctl', 'encword', 'case', 'empty', 'space', 'byteclass', 'byteclass']
 
 
 def mutate(rng, s, kind=None):
@@ -104,6 +104,28 @@ def mutate(rng, s, kind=None):
     if kind == 'space':
         i = rng.randrange(n + 1)
         return s[:i] + pick(rng, [' ', '  ', '\t', ' \t ']) + s[i:]
+    if kind == 'byteclass':
+        # one token (maximal run of token characters) of the element goes through a byte class
+        runs, i = [], 0
+        while i < n:
+            if s[i].isalnum() or s[i] in '-_.':
+                j = i
+                while j < n and (s[j].isalnum() or s[j] in '-_.'):
+                    j += 1
+                runs.append((i, j))
+                i = j
+            else:
+                i += 1
+        t = pick(rng, BYTE_CLASSES)[1]
+        if len(t) > 5000:
+            t = t[:5000]
+        if not runs:
+            return t.replace('{{orig}}', s).replace('{{ORIG}}', s.upper())
+        i, j = pick(rng, runs)
+        tok = s[i:j]
+        if len(tok) * 300 > 20000:
+            tok = tok[:40]
+        return s[:i] + t.replace('{{orig}}', tok).replace('{{ORIG}}', tok.upper()) + s[j:]
     return s
 
 
@@ -150,6 +172,7 @@ def gen_qs(rng):
     for _ in range(rng.choice([0, 1, 1, 2, 3, 6])):
         k = pick(rng, TOKENS + ['a', 'b'])
         v = pick(rng, ['1', 'v', 'x y', 'x+y', '%41', '%C3%A9', '%e9', '%ff%fe', '%', '%4', '%zz', '\xe9', '\xc3\xa9',
+                       '\xe2\x82\xac', '%E2%82%AC', '\xf0\x9f\x98\x80', 'x\xe2\x80\xa8y',
                        '', 'a=b', '%00', '%u00e9', '%ED%A0%80', '%F4%90%80%80', '%C0%80', '%0d%0a'])
         pairs.append(pick(rng, [k + '=' + v, k + '=' + v, k, '=' + v, k + '==' + v]))
     return pick(rng, ['&', '&', '&', ';', '&&'])[0:2].join(pairs)
@@ -475,7 +498,8 @@ COMMON_HEADERS = ['Range', 'If-Match', 'If-None-Match', 'If-Modified-Since', 'If
                   'X-Forwarded-Ssl', 'Content-Type', 'Content-Length', 'Transfer-Encoding', 'Origin', 'Upgrade']
 
 TARGETS = ['plain', 'args', 'static', 'file', 'sess', 'fsess', 'cache', 'basic', 'digest', 'json', 'upload', 'form', 'neg',
-           'etag', 'decode', 'proxy', 'autovary', 'referer', 'dir', 'rest', 'index', 'missing']
+           'etag', 'decode', 'proxy', 'autovary', 'referer', 'dir', 'rest', 'index', 'missing', 'redir', 'echo', 'tsx',
+           'stream', 'combo', 'vhost', 'psub', 'szip']
 # relevant elements per target: (header names always worth sending there)
 RELEVANT = {
     'static': ['Range', 'If-Range', 'If-Modified-Since', 'If-Unmodified-Since', 'If-None-Match', 'If-Match',
@@ -489,6 +513,12 @@ RELEVANT = {
     'decode': [], 'proxy': ['X-Forwarded-For', 'X-Forwarded-Host', 'X-Forwarded-Proto', 'X-Forwarded-Ssl', 'Host'],
     'autovary': ['Accept-Language'], 'referer': ['Referer', 'Referer'], 'dir': ['Host', 'X-Forwarded-Host'],
     'rest': [], 'plain': [], 'args': [], 'index': ['Host'], 'missing': [],
+    'redir': ['Host', 'X-Next'], 'echo': ['Cookie', 'X-Custom', 'Referer', 'Accept-Language'], 'tsx': ['Host'],
+    'stream': ['Range', 'Accept-Encoding', 'If-None-Match'],
+    'combo': ['Cookie', 'Accept', 'Accept-Charset', 'Accept-Encoding', 'If-None-Match', 'If-Match', 'X-Forwarded-Host',
+              'X-Ignore'],
+    'vhost': ['Host', 'X-Forwarded-Host', 'Host'], 'psub': ['X-Forwarded-Host', 'X-Forwarded-Proto', 'X-Forwarded-For', 'Host'],
+    'szip': ['Range', 'If-Range', 'If-Modified-Since', 'If-None-Match', 'Accept-Encoding', 'Accept-Charset'],
 }
 PATHS = {
     'plain': ['/plain', '/plain/x/y', '/plain/'], 'args': ['/args', '/args/1', '/args/1/2', '/args/1/2/3'],
@@ -501,11 +531,15 @@ PATHS = {
     'decode': ['/decode'], 'proxy': ['/proxy'], 'autovary': ['/autovary'], 'referer': ['/referer'],
     'dir': ['/dir', '/dir/', '/sub', '/sub/', '/sub/index'], 'rest': ['/rest', '/rest/', '/rest/x'],
     'index': ['/', '', '//', '/index', '/index/'],
+    'redir': ['/redir', '/redir/x'], 'echo': ['/echo', '/echo/x'], 'tsx': ['/tsx', '/tsx/', '/tsx/x/', '/tsx/x/y//'],
+    'stream': ['/stream'], 'combo': ['/combo', '/combo/x'], 'vhost': ['/vhost', '/vhost/', '/vhost/x'],
+    'psub': ['/psub', '/psub/', '/osub'],
+    'szip': ['/szip/hello.txt', '/szip/', '/szip', '/szip/index.html', '/szip/missing'],
     'missing': ['/nope', '/\xe9', '/a%00b', '/plain.txt', '/favicon.ico', '/robots.txt', '/_private', '/index/x/y',
                 '/' + 'a/' * 200, '/\x00', '/..', '/../..', '/./', '/a;b', '/a?b', '/%', '/global_', '/default', '/*',
                 '/plain\x7f', '/\xff\xfe', '/\xc3\x28'],
 }
-METHODS = ['GET', 'GET', 'GET', 'HEAD', 'POST', 'POST', 'PUT', 'DELETE', 'OPTIONS', 'PATCH', 'TRACE', 'get', 'FOO',
+METHODS = ['GET', 'GET', 'GET', 'HEAD', 'HEAD', 'HEAD', 'POST', 'POST', 'PUT', 'DELETE', 'OPTIONS', 'PATCH', 'TRACE', 'get', 'FOO',
            'PROPFIND', 'M-SEARCH', 'CONNECT']
 
 
@@ -514,7 +548,7 @@ def gen_case(rng, target=None, digest_ctx=None):
     target = target or pick(rng, TARGETS)
     path = pick(rng, PATHS[target])
     bodyful = target in ('json', 'upload', 'form', 'decode') or (target in ('plain', 'rest', 'args', 'basic', 'digest',
-                                                                            'cache', 'sess')
+                                                                            'cache', 'sess', 'redir', 'echo', 'combo')
                                                                and rng.random() < 0.35)
     if bodyful:
         method = pick(rng, ['POST'] * 6 + ['PUT', 'PUT', 'PATCH', 'GET', 'DELETE', 'FOO'])
@@ -522,7 +556,7 @@ def gen_case(rng, target=None, digest_ctx=None):
         method = pick(rng, METHODS)
     qs = sanitize(mutated(rng, gen_qs(rng), 0.35)) if rng.random() < 0.6 else ''
     headers = []
-    proto = pick(rng, ['HTTP/1.1'] * 5 + ['HTTP/1.0'])
+    proto = pick(rng, ['HTTP/1.1'] * 3 + ['HTTP/1.0'] * 2)
     if rng.random() < 0.93:
         headers.append(['Host', 'localhost:8080' if rng.random() < 0.8 else gen_host(rng)])
     body = ''
@@ -590,3 +624,475 @@ def gen_case(rng, target=None, digest_ctx=None):
     qs = sanitize(qs)
     return {'target': target, 'method': method, 'path': sanitize(path), 'qs': qs, 'proto': proto, 'headers': headers,
             'body': body}
+
+
+# ==================================================================================================
+# round 2: systematic cross streams.  Each generator returns a list of cases; a case may carry
+#   'pre'    : earlier requests of the same client (run first, in the same process; what their responses tell the
+#              client - digest challenge, session id, validators - fills the {{placeholders}} of the case),
+#   'digest' : a Digest Authorization spec, computed like a client does from the challenge of the `pre` step,
+#   'clock'  : seconds the server clock advances between the last `pre` step and the case,
+#   a header item [name, value, 'b'|'q'] : the value travels as one RFC 2047 encoded word (utf-8, base64 | Q).
+# ==================================================================================================
+PROTOS = ['HTTP/1.1', 'HTTP/1.0']
+
+# texts that leave ISO-8859-1 once the framework has decoded them (raw UTF-8 in the request line, RFC 2047 in headers)
+WIDE = ['\u20ac', '\u043a\u043b\u044e\u0447', '\u65e5\u672c', '\U0001f600', '\xe9\u20ac', 'a\u0301', '\u2028', '\ufeff',
+        '\u0663', '\u0130', '\uff15', '\u0100']
+
+
+def wire(text):
+    """UTF-8 bytes of `text` the way a WSGI server presents request-line bytes (one code point per byte)."""
+    return text.encode('utf-8', 'surrogatepass').decode('latin-1')
+
+
+def word(text, enc='b', charset='utf-8'):
+    """`text` as one RFC 2047 encoded word."""
+    raw = text.encode(charset, 'replace')
+    if enc == 'q':
+        body = ''.join(chr(b) if (48 <= b <= 57 or 65 <= b <= 90 or 97 <= b <= 122) else '=%02X' % b for b in raw)
+    else:
+        body = base64.b64encode(raw).decode('ascii')
+    return '=?%s?%s?%s?=' % (charset, enc, body)
+
+
+# byte classes a field value is driven through ({{orig}} = the well-formed value of that field)
+BYTE_CLASSES = [
+    ('empty', ''), ('ascii', 'zz'), ('latin1', '\xe9' * 32), ('latin1-tail', '{{orig}}\xe9'), ('latin1-ff', '\xff'),
+    ('utf8', 'd\xc3\xa9j\xc3\xa0'), ('utf8-tail', '{{orig}}\xe2\x82\xac'), ('utf8-astral', '\xf0\x9f\x98\x80'),
+    ('utf8-bad', '{{orig}}\xc3\x28'), ('ctl-head', '\x01{{orig}}'), ('ctl-del', '{{orig}}\x7f'), ('tab', '\t'),
+    ('nul', '{{orig}}\x00'), ('c1', '\x85{{orig}}\xa0'), ('long', '{{orig}}' * 300), ('huge', 'A' * 70000),
+    ('quote-in', '{{orig}}"x'), ('backslash', '{{orig}}\\'), ('comma', '{{orig}},x=y'), ('equals', '{{orig}}='),
+    ('spaces', ' {{orig}} '), ('upper', '{{ORIG}}'), ('pct', '%00{{orig}}%ff'), ('encword', '=?utf-8?b?4oKs?='),
+    ('encword-bad', '{{orig}}=?x?b?!?='), ('digits-wide', '\xd9\xa3'), ('semicolon', '{{orig}};a=b'),
+]
+QUOTE_STYLES = ['q', 'n', 'open', 'close', 'single', 'bs', 'sp', 'noeq', 'dq2']
+DIGEST_PARAMS = ['username', 'realm', 'nonce', 'uri', 'response', 'algorithm', 'qop', 'nc', 'cnonce', 'opaque', 'method',
+                 'foo']
+DIGEST_QUOTED = {'username', 'realm', 'nonce', 'uri', 'response', 'cnonce', 'opaque', 'foo'}
+
+
+def _server_view(v):
+    """How auth_digest reads a header text: the Latin-1 code points as UTF-8 bytes, else as they are."""
+    try:
+        return v.encode('latin-1').decode('utf-8')
+    except UnicodeError:
+        return v
+
+
+def _fmt(k, v, style):
+    if style == 'q':
+        return '%s="%s"' % (k, v)
+    if style == 'n':
+        return '%s=%s' % (k, v)
+    if style == 'open':
+        return '%s="%s' % (k, v)
+    if style == 'close':
+        return '%s=%s"' % (k, v)
+    if style == 'single':
+        return "%s='%s'" % (k, v)
+    if style == 'bs':
+        return '%s="%s\\"' % (k, v)
+    if style == 'sp':
+        return '%s = "%s"' % (k, v)
+    if style == 'noeq':
+        return '%s "%s"' % (k, v)
+    if style == 'dq2':
+        return '%s=""%s""' % (k, v)
+    return '%s="%s"' % (k, v)
+
+
+def build_digest(spec, caps, method, uri):
+    """The Authorization header a client computes from the server's challenge (`caps`), then the spec's
+    per-field overrides / quoting styles.  Pure function of its arguments (replayable)."""
+    user, pw = spec.get('user', 'user'), spec.get('pw', 'pw')
+    qop, alg = spec.get('qop'), spec.get('alg')
+    vals = {'username': user, 'realm': caps.get('realm', 'realm'), 'nonce': caps.get('nonce', ''),
+            'uri': spec.get('uri') or uri, 'algorithm': alg, 'qop': qop,
+            'nc': spec.get('nc', '00000001') if qop else None,
+            'cnonce': spec.get('cnonce', '0a4f113b') if qop else None,
+            'opaque': caps.get('opaque') or None, 'method': None, 'foo': None, 'response': None}
+    over = spec.get('set') or {}
+
+    def tmpl(t, orig):
+        orig = orig or ''
+        return t.replace('{{orig}}', orig).replace('{{ORIG}}', orig.upper())
+    for k, t in over.items():
+        if k != 'response':
+            vals[k] = None if t is None else tmpl(t, vals.get(k))
+    sv = {k: (None if v is None else _server_view(v)) for k, v in vals.items()}
+    ha1 = md5hex('%s:%s:%s' % (sv['username'], sv['realm'], pw))
+    if (sv['algorithm'] or '').upper() == 'MD5-SESS':
+        ha1 = md5hex('%s:%s:%s' % (ha1, sv['nonce'], sv['cnonce']))
+    if sv['qop'] == 'auth-int':
+        ha2 = md5hex('%s:%s:%s' % (method, sv['uri'], md5hex('')))
+    else:
+        ha2 = md5hex('%s:%s' % (method, sv['uri']))
+    if sv['qop']:
+        resp = md5hex('%s:%s:%s:%s:%s:%s' % (ha1, sv['nonce'], sv['nc'], sv['cnonce'], sv['qop'], ha2))
+    else:
+        resp = md5hex('%s:%s:%s' % (ha1, sv['nonce'], ha2))
+    vals['response'] = resp
+    if 'response' in over:
+        vals['response'] = None if over['response'] is None else tmpl(over['response'], resp)
+    styles = spec.get('quote') or {}
+    order = spec.get('order') or ['username', 'realm', 'nonce', 'uri', 'response', 'algorithm', 'qop', 'nc', 'cnonce',
+                                  'opaque', 'method', 'foo']
+    items = []
+    for k in order:
+        v = vals.get(k)
+        if v is None:
+            continue
+        items.append(_fmt(k, v, styles.get(k) or ('q' if k in DIGEST_QUOTED else 'n')))
+    for k in spec.get('dup') or []:
+        if vals.get(k) is not None:
+            items.append(_fmt(k, vals[k], 'q' if k in DIGEST_QUOTED else 'n'))
+    hdr = spec.get('scheme', 'Digest ') + spec.get('sep', ', ').join(items) + spec.get('tail', '')
+    if spec.get('wire') == 'utf8':
+        try:
+            hdr = hdr.encode('utf-8').decode('latin-1')
+        except UnicodeError:
+            pass
+    if spec.get('word'):
+        hdr = word(_server_view(hdr), spec['word'])
+    return hdr
+
+
+def _base(target, method, path, proto, headers=None, qs='', body=''):
+    hs = [['Host', 'localhost:8080']] + [list(h) for h in (headers or [])]
+    if body or method in ('POST', 'PUT'):
+        if not any(h[0] == 'Content-Type' for h in hs):
+            hs.append(['Content-Type', 'application/x-www-form-urlencoded'])
+        hs.append(['Content-Length', str(len(body))])
+    return {'target': target, 'method': method, 'path': path, 'qs': qs, 'proto': proto, 'headers': hs, 'body': body}
+
+
+def _get(path, qs='', headers=None, proto='HTTP/1.1'):
+    return {'method': 'GET', 'path': path, 'qs': qs, 'proto': proto,
+            'headers': [['Host', 'localhost:8080']] + [list(h) for h in (headers or [])], 'body': ''}
+
+
+# ---- digest auth: the second step of the handshake ------------------------------------------------
+def digest_cases(rng, extra=120):
+    """Genuine nonce (from the 401 challenge of the `pre` step) + a known user, then EVERY parameter of the header
+    through every byte class and every quoting style; qop / algorithm / password / method / protocol vary."""
+    out = []
+
+    def one(spec, paths=('/digest',)):
+        method = pick(rng, ['GET', 'GET', 'HEAD', 'POST', 'PUT', 'DELETE'])
+        path = pick(rng, list(paths))
+        qs = pick(rng, ['', '', 'a=1', 'q=' + wire('\u20ac')])
+        body = 'a=1' if method in ('POST', 'PUT') and rng.random() < 0.7 else ''
+        c = _base('digest2', method, path, pick(rng, PROTOS), qs=qs, body=body)
+        c['pre'] = [_get(path, proto=pick(rng, PROTOS))]
+        c['digest'] = spec
+        if rng.random() < 0.08:
+            c['clock'] = pick(rng, [599, 601, 10 ** 6])
+        return c
+
+    def base_spec():
+        user, pw = pick(rng, [('user', 'pw'), ('user', 'pw'), ('user', 'wrong'), ('jos\xe9', 'se\xf1a')])
+        s = {'user': user, 'pw': pw, 'qop': pick(rng, ['auth', 'auth', 'auth', None, None, None, None, 'auth-int']),
+             'alg': pick(rng, ['MD5', None, 'MD5-sess', 'md5']), 'wire': pick(rng, ['latin1', 'latin1', 'utf8'])}
+        return s
+    for p in DIGEST_PARAMS:
+        for name, t in BYTE_CLASSES:
+            s = base_spec()
+            s['set'] = {p: t}
+            if name in ('quote-in', 'backslash', 'comma', 'spaces', 'semicolon') and p not in DIGEST_QUOTED and rng.random() < 0.5:
+                s['quote'] = {p: 'q'}
+            out.append(one(s))
+        for q in QUOTE_STYLES:
+            s = base_spec()
+            s['quote'] = {p: q}
+            if p in ('method', 'foo'):
+                s['set'] = {p: 'x'}
+            out.append(one(s))
+        s = base_spec()
+        s['set'] = {p: None}
+        out.append(one(s))
+        s = base_spec()
+        s['dup'] = [p]
+        out.append(one(s))
+    for _ in range(extra):
+        s = base_spec()
+        s['set'] = {}
+        for _i in range(rng.choice([0, 1, 2, 3])):
+            s['set'][pick(rng, DIGEST_PARAMS)] = pick(rng, BYTE_CLASSES)[1]
+        if rng.random() < 0.3:
+            s['quote'] = {pick(rng, DIGEST_PARAMS): pick(rng, QUOTE_STYLES)}
+        if rng.random() < 0.3:
+            order = list(DIGEST_PARAMS)
+            rng.shuffle(order)
+            s['order'] = order
+        if rng.random() < 0.3:
+            s['scheme'] = pick(rng, ['digest ', 'DIGEST ', 'Digest  ', 'Digest\t', 'Digest ,'])
+        if rng.random() < 0.3:
+            s['sep'] = pick(rng, [',', ' , ', ',,', ';', ' ', ',\t'])
+        if rng.random() < 0.2:
+            s['tail'] = pick(rng, [',', ', ', ' ', '"', ', =', ', x', '\xe9'])
+        if rng.random() < 0.15:
+            s['word'] = pick(rng, ['b', 'q'])
+            if rng.random() < 0.5:
+                s['user'] = pick(rng, WIDE)
+        out.append(one(s, paths=('/digest', '/digest/x')))
+    return out
+
+
+def basic_cases(rng):
+    """Basic credentials: user-id / password / the base64 text through every byte class, both protocols."""
+    out = []
+    for name, t in BYTE_CLASSES:
+        for part in ('user', 'pw', 'b64', 'pair'):
+            user, pw = 'user', 'pw'
+            if part == 'user':
+                user = t.replace('{{orig}}', 'user').replace('{{ORIG}}', 'USER')
+            elif part == 'pw':
+                pw = t.replace('{{orig}}', 'pw').replace('{{ORIG}}', 'PW')
+            raw = (user + ':' + pw).encode('latin-1', 'replace')
+            if part == 'pair':
+                raw = t.replace('{{orig}}', 'user:pw').replace('{{ORIG}}', 'USER:PW').encode('latin-1', 'replace')
+            b64 = base64.b64encode(raw).decode('ascii')
+            if part == 'b64':
+                b64 = t.replace('{{orig}}', 'dXNlcjpwdw==').replace('{{ORIG}}', 'DXNLCJPWDW==')
+            if len(b64) > 20000 and name != 'huge':
+                continue
+            method = pick(rng, ['GET', 'HEAD', 'POST'])
+            c = _base('basic2', method, '/basic', pick(rng, PROTOS), [['Authorization', sanitize('Basic ' + b64)]])
+            out.append(c)
+    for w in WIDE:
+        for enc in ('b', 'q'):
+            b64 = base64.b64encode(('user:' + w).encode('utf-8')).decode('ascii')
+            out.append(_base('basic2', 'GET', '/basic', pick(rng, PROTOS), [['Authorization', 'Basic ' + b64]]))
+            out.append(_base('basic2', 'GET', '/basic', pick(rng, PROTOS), [['Authorization', 'Basic ' + w, enc]]))
+    return out
+
+
+# ---- sessions with presented ids ---------------------------------------------------------------------
+SID_TEMPLATES = ['session_id={{sid}}', 'session_id="{{sid}}"', 'session_id={{sid}}; session_id=x',
+                 'session_id=x; session_id={{sid}}', 'a=b; session_id={{sid}}; c=d', 'session_id={{sid}}\xe9',
+                 'session_id={{sid}}/../x', 'session_id=../{{sid}}', 'session_id={{sid}} ', 'SESSION_ID={{sid}}',
+                 '$Version=1; session_id={{sid}}; $Path=/', 'session_id={{sid}}{{sid}}', 'session_id={{sid}}\x00',
+                 'session_id={{sid}}.lock', 'session_id=session-{{sid}}', 'session_id={{sid}}; bad name=1',
+                 'session_id={{sid}}, x=y', 'session_id={{sid}}; \xe9=1', 'session_id=%s' % ('{{sid}}' * 40),
+                 'session_id={{sid}}\\', "session_id='{{sid}}'", 'session_id={{sid}};', ';session_id={{sid}}',
+                 'session_id=={{sid}}', 'session_id={{sid}}; expires=x; path=/; secure', 'session_id={{sid}}\t']
+
+
+def session_cases(rng):
+    out = []
+    for path in ('/sess', '/fsess', '/combo'):
+        for t in SID_TEMPLATES:
+            for proto in PROTOS:
+                method = pick(rng, ['GET', 'GET', 'HEAD', 'POST', 'DELETE'])
+                c = _base('sess2', method, path, proto, [['Cookie', t]])
+                c['pre'] = [_get(path, proto=pick(rng, PROTOS))]
+                if rng.random() < 0.3:      # a second visit with the genuine id before the malformed one
+                    c['pre'].append(_get(path, headers=[['Cookie', 'session_id={{sid}}']]))
+                out.append(c)
+        for w in WIDE[:6]:
+            for enc in ('b', 'q'):
+                c = _base('sess2', 'GET', path, pick(rng, PROTOS), [['Cookie', 'session_id={{sid}}; a=' + w, enc]])
+                c['pre'] = [_get(path)]
+                out.append(c)
+                out.append(_base('sess2', 'GET', path, pick(rng, PROTOS), [['Cookie', 'session_id=' + w, enc]]))
+    return out
+
+
+# ---- caching with cached entries, conditional headers against existing validators -----------------------
+COND_TEMPLATES = {
+    'If-Match': ['{{etag}}', '*', '"x", {{etag}}', '{{etagbare}}', 'W/{{etag}}', '{{etag}}\xe9', '{{etag}},', ',{{etag}}',
+                 '"{{etagbare}}', '{{etagbare}}"', '{{etag}}; q=1', '{{etag}} {{etag}}', '"\xe9"', '', '**', '"*"',
+                 '{{etag}}\x00', '"a,b", {{etag}}', '{{etag}}' * 200, "'{{etagbare}}'", '\\{{etag}}'],
+    'If-Modified-Since': ['{{lastmod}}', '{{lastmod}}x', ' {{lastmod}}', '{{lastmod}}; length=5', 'x{{lastmod}}',
+                          '{{lastmod}}\xe9', '"{{lastmod}}"', '{{lastmod}}, {{lastmod}}', 'Thu, 01 Jan 2099 00:00:00 GMT',
+                          'Sun, 99 Nov 1994 08:49:37 GMT', 'Sun, 06 Nov 99999999999 08:49:37 GMT', '0', '-1', '', '\xb2',
+                          'Sun, 06 Nov 1994 25:61:61 GMT', 'Sun, 06 Nov 1994 08:49:37 +9999', '1' * 5000, '\x00'],
+}
+COND_TEMPLATES['If-None-Match'] = COND_TEMPLATES['If-Match']
+COND_TEMPLATES['If-Unmodified-Since'] = COND_TEMPLATES['If-Modified-Since']
+COND_TEMPLATES['If-Range'] = COND_TEMPLATES['If-Modified-Since'][:8] + COND_TEMPLATES['If-Match'][:8]
+
+
+def conditional_cases(rng):
+    out = []
+    for path, target in (('/etag', 'etag'), ('/file', 'file'), ('/static/hello.txt', 'static'), ('/combo', 'combo'),
+                         ('/cache/c', 'cache')):
+        for name, ts in COND_TEMPLATES.items():
+            for t in ts:
+                method = pick(rng, ['GET', 'GET', 'HEAD', 'POST', 'PUT', 'DELETE'])
+                hs = [[name, t]]
+                if name == 'If-Range' or rng.random() < 0.25:
+                    hs.append(['Range', sanitize(mutated(rng, gen_range(rng), 0.4))])
+                if rng.random() < 0.2:
+                    other = pick(rng, list(COND_TEMPLATES))
+                    hs.append([other, pick(rng, COND_TEMPLATES[other])])
+                c = _base('cond2', method, path, pick(rng, PROTOS), hs)
+                c['pre'] = [_get(path)]
+                out.append(c)
+        for name in COND_TEMPLATES:
+            for w in (WIDE[0], WIDE[8], WIDE[10]):
+                c = _base('cond2', 'GET', path, pick(rng, PROTOS), [[name, '{{etag}}' + w, pick(rng, ['b', 'q'])]])
+                c['pre'] = [_get(path)]
+                out.append(c)
+    return out
+
+
+def cache_cases(rng, n=250):
+    """A cached entry exists (the `pre` GET, maybe with the request headers the variant is keyed on); then the
+    malformed stream of headers caching looks at, over methods and protocols."""
+    out = []
+    names = ['Cache-Control', 'Pragma', 'Accept-Encoding', 'Range', 'If-Modified-Since', 'If-None-Match', 'If-Match',
+             'If-Unmodified-Since', 'Cookie', 'Accept', 'Content-Length']
+    for _ in range(n):
+        path = pick(rng, ['/cache', '/cache/a', '/cache/b'])
+        qs = pick(rng, ['', '', 'a=1', 'q=' + wire('\u20ac')])
+        pre_h = [['Accept-Encoding', 'gzip']] if rng.random() < 0.3 else []
+        hs = []
+        for _i in range(rng.choice([1, 1, 2, 3])):
+            nm = pick(rng, names)
+            hs.append([nm, sanitize(mutated(rng, gen_header(rng, nm), 0.6))])
+        method = pick(rng, ['GET', 'GET', 'GET', 'HEAD', 'HEAD', 'POST', 'PUT', 'DELETE', 'OPTIONS'])
+        c = _base('cache2', method, path, pick(rng, PROTOS), hs, qs=qs)
+        c['pre'] = [_get(path, qs, pre_h, pick(rng, PROTOS))]
+        if rng.random() < 0.2:
+            c['pre'].append({'method': pick(rng, ['POST', 'PUT', 'DELETE']), 'path': path, 'qs': qs, 'proto': 'HTTP/1.1',
+                             'headers': [['Host', 'localhost:8080'], ['Content-Length', '0']], 'body': ''})
+            c['pre'].append(_get(path, qs))
+        out.append(c)
+    return out
+
+
+# ---- resources that reflect request data into response headers x protocol x method x data beyond U+00FF ------
+REFLECTORS = [('/sub', 'tslash'), ('/psub', 'tslash-proxy'), ('/osub', 'tslash-origin'), ('/tsx/x/', 'tslash-extra'),
+              ('/redir', 'redirect'), ('/echo', 'echo'), ('/static', 'staticdir'), ('/combo', 'combo'),
+              ('/vhost', 'vhost'), ('/sess', 'sess'), ('/proxy', 'proxy'), ('', 'root'), ('/rest', 'rest'),
+              ('/stream', 'stream'), ('/neg', 'neg'), ('/cache/r', 'cache'), ('/json', 'json'), ('/etag', 'etag')]
+
+
+REFLECT_SOURCES = ['qs-value', 'qs-key', 'qs-bare', 'path', 'host-b', 'host-q', 'host-raw', 'xfh', 'xfh-raw', 'origin',
+                   'xfproto', 'xff', 'cookie', 'hdr', 'next', 'body']
+
+
+def reflect_case(rng, path, kind, proto, src, method, w):
+    hs, qs, p, body = [], '', path, ''
+    nohost = False
+    if src == 'qs-value':
+        qs = pick(rng, ['q=', 'to=', 'a=1&to=']) + wire(w)
+    elif src == 'qs-key':
+        qs = wire(w) + '=1'
+    elif src == 'qs-bare':
+        qs = wire(w)
+    elif src == 'path':
+        p = path.rstrip('/') + '/' + wire(w) + ('/' if path.endswith('/') else '')
+    elif src in ('host-b', 'host-q'):
+        hs.append(['Host', w + '.example', src[-1]])
+        nohost = True
+    elif src == 'host-raw':
+        hs.append(['Host', wire(w) + '.example'])
+        nohost = True
+    elif src == 'xfh':
+        hs.append(['X-Forwarded-Host', w + '.example', pick(rng, ['b', 'q'])])
+    elif src == 'xfh-raw':
+        hs.append(['X-Forwarded-Host', wire(w)])
+    elif src == 'origin':
+        hs.append(['Origin', 'http://' + w, pick(rng, ['b', 'q'])])
+    elif src == 'xfproto':
+        hs.append(['X-Forwarded-Proto', 'http' + w, pick(rng, ['b', 'q'])])
+    elif src == 'xff':
+        hs.append(['X-Forwarded-For', w, pick(rng, ['b', 'q'])])
+    elif src == 'cookie':
+        hs.append(['Cookie', pick(rng, ['session_id=', 'a=', '']) + w, pick(rng, ['b', 'q'])])
+    elif src == 'hdr':
+        hs.append([pick(rng, ['X-Custom', 'User-Agent', 'Referer', 'Accept-Language', 'From']), w, pick(rng, ['b', 'q'])])
+    elif src == 'next':
+        hs.append(['X-Next', w, pick(rng, ['b', 'q'])])
+    elif src == 'body':
+        method = 'POST'
+        body = pick(rng, ['to=', 'q=', '']) + ''.join('%%%02X' % b for b in w.encode('utf-8'))
+    c = _base('reflect:' + kind, method, p, proto, hs, qs=qs, body=body)
+    if nohost:
+        c['headers'] = c['headers'][1:]
+    return c
+
+
+def reflect_cases(rng, repeats=2):
+    """Every reflecting resource x protocol x source of text beyond U+00FF, `repeats` times with a random method
+    (GET / HEAD / POST) and a random text; repeats >= 36 enumerates methods x texts instead."""
+    out = []
+    for path, kind in REFLECTORS:
+        for proto in PROTOS:
+            for src in REFLECT_SOURCES:
+                if repeats >= 36:
+                    for method in ('GET', 'HEAD', 'POST'):
+                        for w in WIDE:
+                            out.append(reflect_case(rng, path, kind, proto, src, method, w))
+                else:
+                    for _ in range(repeats):
+                        out.append(reflect_case(rng, path, kind, proto, src, pick(rng, ['GET', 'GET', 'HEAD', 'POST']),
+                                                pick(rng, WIDE)))
+    return out
+
+
+# ---- RFC 2047 words in every header a tool consumes ----------------------------------------------------
+CONSUMED = {
+    'Range': (['/file', '/static/hello.txt', '/cache/e'], ['bytes=0-5', 'bytes=-3', 'bytes=2-']),
+    'If-Range': (['/file'], ['"x"', 'Sun, 06 Nov 1994 08:49:37 GMT']),
+    'If-Match': (['/etag', '/combo'], ['"x"', '*']),
+    'If-None-Match': (['/etag', '/static/hello.txt', '/combo'], ['"x"', '*']),
+    'If-Modified-Since': (['/file', '/static/hello.txt'], ['Sun, 06 Nov 1994 08:49:37 GMT']),
+    'If-Unmodified-Since': (['/file'], ['Sun, 06 Nov 1994 08:49:37 GMT']),
+    'Accept': (['/acc', '/neg', '/combo'], ['text/html;q=0.5', 'text/*', '*/*;q=0.1']),
+    'Accept-Charset': (['/neg', '/combo'], ['utf-8;q=0.5', 'iso-8859-1', '*;q=0.1']),
+    'Accept-Encoding': (['/gz', '/neg', '/combo', '/static/hello.txt'], ['gzip;q=0.5', 'identity;q=0', '*']),
+    'Accept-Language': (['/autovary', '/combo'], ['en;q=0.5']),
+    'Cookie': (['/sess', '/fsess', '/combo', '/echo'], ['session_id=abc', 'a=b; c=d']),
+    'Host': (['/sub', '/psub', '/vhost', '/proxy', '/plain'], ['localhost:8080', 'one.example']),
+    'X-Forwarded-Host': (['/proxy', '/psub', '/combo', '/vhost'], ['one.example', 'a.example, b.example']),
+    'X-Forwarded-For': (['/proxy', '/psub'], ['1.2.3.4', '1.2.3.4, 5.6.7.8']),
+    'X-Forwarded-Proto': (['/proxy', '/psub'], ['https']),
+    'X-Forwarded-Ssl': (['/osub'], ['on']),
+    'Origin': (['/osub'], ['http://one.example']),
+    'Authorization': (['/basic', '/digest'], ['Basic dXNlcjpwdw==', 'Digest username="user", realm="realm", nonce="1:x", '
+                                             'uri="/digest", response="x"']),
+    'Content-Type': (['/form', '/upload', '/json', '/decode', '/plain'],
+                     ['application/x-www-form-urlencoded; charset=utf-8', 'multipart/form-data; boundary=B',
+                      'application/json', 'text/plain; charset=iso-8859-1']),
+    'Content-Length': (['/form', '/json', '/plain'], ['3']),
+    'Content-Disposition': (['/plain', '/upload'], ['form-data; name="a"; filename="x"', "form-data; filename*=utf-8''a"]),
+    'Cache-Control': (['/cache/e'], ['max-age=5', 'no-cache']),
+    'Pragma': (['/cache/e'], ['no-cache']),
+    'Referer': (['/referer'], ['http://www.example.com/x']),
+    'Transfer-Encoding': (['/form', '/plain'], ['chunked']),
+    'Expect': (['/form'], ['100-continue']),
+    'Connection': (['/plain'], ['close']),
+    'Content-Encoding': (['/decode', '/form'], ['gzip']),
+    'X-Ignore': (['/combo'], ['x']),
+}
+WIDE_DIGITS = ['\u0663', '\uff15', '\u0969']
+
+
+def encword_cases(rng):
+    out = []
+    for name, (paths, values) in sorted(CONSUMED.items()):
+        for path in paths:
+            for v in values:
+                variants = [v, v + WIDE[0], WIDE[1], v.replace('5', WIDE_DIGITS[1]).replace('3', WIDE_DIGITS[0]),
+                            pick(rng, WIDE) + v, v[:len(v) // 2] + pick(rng, WIDE) + v[len(v) // 2:],
+                            v.replace('=', '=' + pick(rng, WIDE), 1), v + '\u2028', v.upper() + '\u0130']
+                for t in variants:
+                    bodyful = name.startswith('Content-') or name in ('Transfer-Encoding', 'Expect')
+                    method = 'POST' if bodyful else pick(rng, ['GET', 'GET', 'HEAD'])
+                    body = 'a=1' if method == 'POST' else ''
+                    hs = [[name, t, pick(rng, ['b', 'q'])]]
+                    c = _base('encword:' + name, method, path, pick(rng, PROTOS), hs, body=body)
+                    if name == 'Host':
+                        c['headers'] = c['headers'][1:]
+                    if name == 'Content-Type':
+                        c['headers'] = [h for h in c['headers'] if h[0] != 'Content-Type' or len(h) == 3]
+                    if name == 'Content-Length':
+                        c['headers'] = [h for h in c['headers'] if h[0] != 'Content-Length' or len(h) == 3]
+                    if path.startswith('/cache'):
+                        c['pre'] = [_get(path)]
+                    out.append(c)
+    return out
